@@ -11,7 +11,7 @@ Proof.
   destruct (get w (i_cid ins)) as [c|]; [|inversion H; auto].
   destruct (hier c) as [|key p]; [inversion H; auto|].
   destruct (lookup (g_cache (get_gf w k)) key); [inversion H; auto|].
-  destruct (applicable (get_gf w k) (key :: p)); inversion H; auto.
+  cbv zeta in H. destruct (callable k (applicable (get_gf w k) (key :: p))); inversion H; auto.
 Qed.
 Lemma upd_inst_frame : forall w i vs, heap (upd_inst w i vs) = heap w /\ reg (upd_inst w i vs) = reg w /\ gfs (upd_inst w i vs) = gfs w.
 Proof. intros. unfold upd_inst. destruct (nth_error (insts w) i); simpl; auto. Qed.
